@@ -685,6 +685,38 @@ def signature : Sp → List Int
   | .wrapper _ s => signature s
   | sp => ((sigBody sp).length : Int) :: sigBody sp
 
+/-! ### control spaces (only what the archive header needs: `ControlSpace::computeSignature`) -/
+
+inductive Cs where
+  | real (d : Nat)            -- RealVectorControlSpace(d): type CONTROL_SPACE_REAL_VECTOR = 1
+  | discrete                  -- DiscreteControlSpace: type CONTROL_SPACE_DISCRETE = 2, dimension 1
+  | compound (cs : List Cs)   -- CompoundControlSpace: type CONTROL_SPACE_UNKNOWN = 0
+deriving Repr, Inhabited
+
+mutual
+def csDim : Cs → Nat
+  | .real d => d
+  | .discrete => 1
+  | .compound cs => csDimL cs
+def csDimL : List Cs → Nat
+  | [] => 0
+  | c :: cs => csDim c + csDimL cs
+end
+
+mutual
+/-- `computeControlSpaceSignatureHelper` -/
+def csSigBody : Cs → List Int
+  | .real d => [1, (d : Int)]
+  | .discrete => [2, 1]
+  | .compound cs => [0, (csDimL cs : Int)] ++ csSigBodyL cs
+def csSigBodyL : List Cs → List Int
+  | [] => []
+  | c :: cs => csSigBody c ++ csSigBodyL cs
+end
+
+/-- `ControlSpace::computeSignature` -/
+def ctrlSignature (c : Cs) : List Int := ((csSigBody c).length : Int) :: csSigBody c
+
 /-! ### archives (record granularity) -/
 
 def markerStates : Nat := 0x4C504D4F     -- "OMPL"
